@@ -17,7 +17,13 @@ class Collector:
 
     def _model(self, out):
         arrs = S.model_arrays(out, self.shapes)
-        return {k: v.tolist() for k, v in arrs.items()}
+        res = {k: v.tolist() for k, v in arrs.items()}
+        # python scalars registered by vf.symscalar (not in shapes)
+        others = [n for n in out.get('m', {}) if n not in self.shapes]
+        if others:
+            from . import symscalar as SS
+            res.update(SS.model_scalars(out, others))
+        return res
 
     def check_path(self, props, label='', extra=None, group=True, witnesses=None):
         """props: list of (name, z3 Bool) that must hold on this path (under EX.pc).  In-bounds/engine obligations of the
